@@ -114,7 +114,8 @@ def gen_cli_case(rng, g):
     fail_at = rng.choice([None, None, None, 0, nsrc - 1, rng.randrange(nsrc)])
     for i in range(nsrc):
         if i == fail_at:
-            k = rng.choice(['syntax', 'syntax', 'head', 'visitor', 'badutf8', 'missing'])
+            k = rng.choice(['syntax', 'syntax', 'syntax', 'head', 'head', 'visitor', 'visitor', 'badutf8', 'badutf8', 'missing', 'missing',
+                            'toolarge', 'bignum'])
         else:
             k = rng.choice(['good', 'good', 'good', 'rich', 'never', 'empty'])
         kinds.append(k)
@@ -132,6 +133,12 @@ def gen_cli_case(rng, g):
             text = _small(g.bad_head)
         elif k == 'visitor':
             text = _small(g.bad_visitor)
+        elif k == 'toolarge':
+            # more nested blocks than CPython compiles: CompilerError at 0:0 raised after the code was generated
+            text = 'ok(a).\np(X) :- %s.\n' % ', '.join(['q(X)'] * rng.choice([21, 25, 30]))
+        elif k == 'bignum':
+            # str(int(numeral)) raises ValueError (not a CompilerError) beyond 4300 digits
+            text = 'ok(a).\np(%s).\n' % ('7' * rng.choice([4301, 4400]))
         else:
             text = None
         use_stdin = stdin is None and k not in ('missing',) and rng.random() < 0.3
@@ -151,7 +158,7 @@ def gen_cli_case(rng, g):
         sources.append('-')        # a second `-` reads an empty stdin
     if rng.random() < 0.12 and len(files) >= 1 and rng.random() < 0.5:
         sources.append(files[0][0])     # the same file twice
-    outfile = rng.choice(['out.py', 'out.py', 'o ut.py', 'é_out.py'])
+    outfile = rng.choice(['out.py', 'out.py', 'out.py', 'o ut.py', 'é_out.py', 'é_out.py', '-'])      # `-o -` is stdout
     if rng.random() < 0.06 and sources[0] != '-' and kinds[0] != 'missing':
         outfile = sources[0]            # the output file is the first source: truncated before it is read
         if sources.count(outfile) > 1:
@@ -162,7 +169,7 @@ def gen_cli_case(rng, g):
             'outfile': outfile, 'modesalt': rng.randrange(2), 'combos': 'all'}
 
 def gen(rng, tier):
-    ncli, ntext = (36, 500) if tier == 'quick' else (700, 6000)
+    ncli, ntext = (36, 500) if tier == 'quick' else (240, 4000)
     g = Gen(rng, special=0.3)
     cli = [gen_cli_case(rng, g) for _ in range(ncli)]
     if tier == 'quick':
@@ -214,6 +221,9 @@ def builtin_corpus():
     cli([['x\ny.pl', 'foo(.\n']], ['x\ny.pl'])
     cli([['a.pl', good], ['b.pl', nl]], ['a.pl', 'b.pl'], outfile='a.pl')   # output file = first source
     cli([['a.pl', ''], ['b.pl', '% c\n']], ['a.pl', 'b.pl', 'a.pl'])
+    cli([['a.pl', good], ['big.pl', 'p :- ' + ', '.join(['q'] * 25) + '.\n']], ['a.pl', 'big.pl'])    # too large: CompilerError at 0:0
+    cli([['a.pl', good], ['num.pl', 'p(' + '1' * 4400 + ').\n']], ['a.pl', 'num.pl', 'a.pl'])      # ValueError: traceback
+    cli([['a.pl', good]], ['a.pl', '-'], stdin=nl, outfile='-')                                       # -o - is stdout
     return L
 
 # ------------------------------------------------------------------ implementation side
@@ -354,6 +364,15 @@ def _model_result(mo, mode, dfn):
         f = [f[0], mo[1 + (1 if dfn else 0)][2]]      # the text of the stdout run
     return {'end': end, 'status': status, 'stdout': stdout, 'file': (f[1] if f else None), 'fname': (f[0] if f else None)}
 
+_TOO_LARGE = re.compile(r'(program too large for Python: .*) \((.*), line \d+\)$', re.S)
+
+def _norm_msg(msg, case):
+    """the 'program too large' message quotes CPython's SyntaxError, which names the file given to compile() ('<generated>'
+    for the library, the source name for the command line) and a line number of the generated text (which shifts when the
+    `# from <file>` lines of --debug-filename are present): both are dropped before comparing"""
+    m = _TOO_LARGE.search(msg)
+    return msg[:m.start()] + m.group(1) if m else msg
+
 def compare(case, io_, mo):
     if case['kind'] == 'comment':
         if mo[0] != 'comment':
@@ -384,7 +403,7 @@ def compare(case, io_, mo):
             return tag + 'exit status %r, model %r' % (run['status'], m['status'])
         if run['end'][0] != m['end'][0]:
             return tag + 'ends with %r, model %r' % (run['end'][0], m['end'][0])
-        if run['end'][0] == 'error' and run['end'][1] != m['end'][1]:
+        if run['end'][0] == 'error' and _norm_msg(run['end'][1], case) != _norm_msg(m['end'][1], case):
             return tag + 'error message %r, model %r' % (run['end'][1], m['end'][1])
         if m['file'] is None:
             if run['file'] is not None and run['file'] != run['before']:
@@ -444,8 +463,9 @@ def oracle(case, io_):
     missing = any(s != '-' and s not in fsmap for s in case['sources'])
     for run in runs:
         tag = 'flags=%s mode=%s: ' % (''.join(map(str, run['flags'])), run['mode'])
-        out = run['file'] if run['mode'] == 'file' else run['stdout']
-        if run['mode'] == 'file' and run['stdout'] != '':
+        to_file = run['mode'] == 'file' and case['outfile'] != '-'
+        out = run['file'] if to_file else run['stdout']
+        if to_file and run['stdout'] != '':
             return tag + 'wrote to stdout although -o was given'
         if missing:
             if run['status'] == 0:
@@ -465,7 +485,7 @@ def oracle(case, io_):
                 stdin_left = ['text', '']
             else:
                 t = fsmap[s]
-                if run['mode'] == 'file' and s == case['outfile']:
+                if to_file and s == case['outfile']:
                     t = ''
             if t is None:
                 failed = ['crash']
